@@ -25,6 +25,12 @@ def main():
     out = os.path.join(VERIF, "seeded", name)
     os.makedirs(out, exist_ok=True)
     meta = {"property": prop, "name": name, "confirmed": False, "ran": []}
+    prev = None
+    if os.path.exists(os.path.join(out, "meta.json")):
+        try:
+            prev = json.load(open(os.path.join(out, "meta.json")))
+        except Exception:
+            prev = None
     wt = "/tmp/seedeval-%s" % name
     sh("git -C /repo worktree remove --force %s" % wt)
     rc, o = sh("git -C /repo worktree add -q --detach %s HEAD" % wt)
@@ -78,6 +84,10 @@ def main():
             sh("rm -rf %s" % copy)
     else:
         print(name, "NOT CONFIRMED", {k: meta.get(k) for k in ("suite_green_with_change", "demo_passes_without", "demo_fails_with")})
+    if prev is not None:
+        hist = prev.get("earlier_runs", [])
+        hist.append({"checks": prev.get("checks", {}), "note": "verdict of an earlier version of the checks (kept to show what was strengthened)"})
+        meta["earlier_runs"] = hist
     json.dump(meta, open(os.path.join(out, "meta.json"), "w"), indent=1)
 
 
